@@ -158,6 +158,16 @@ fn h1_act(state: &BackState, s: &mut TcpStream, sc: &Script, faulted: bool) -> b
             drain(s, Duration::from_secs(12));
             false
         }
+        Fault::InterimStall { code } => {
+            let interim: &[u8] = if *code == 100 {
+                b"HTTP/1.1 100 Continue\r\n\r\n"
+            } else {
+                b"HTTP/1.1 103 Early Hints\r\nLink: </style.css>; rel=preload; as=style\r\n\r\n"
+            };
+            let _ = s.write_all(interim);
+            drain(s, Duration::from_secs(14));
+            false
+        }
         Fault::Garbage { v } => {
             let _ = s.write_all(garbage(*v));
             fin_and_drain(s, Duration::from_secs(3));
